@@ -43,24 +43,31 @@ func (f *frame) asyncBoundary(callee *ssa.Function) map[string]bool {
 	if len(mentioned) == 0 {
 		return nil
 	}
-	var writers []string
 	pkgPath, _ := calleeKeyOf(callee)
-	for _, sp := range f.c.specs.Order {
-		if sp.PkgPath != pkgPath {
-			continue
-		}
-		for _, g := range specGhostWrites(sp) {
-			if mentioned[g] {
-				writers = append(writers, sp.Key)
-				break
+	kept := map[string]bool{}
+	for g := range mentioned {
+		// the functions under contract that update g; g is kept only when none
+		// of them is reachable from the callee through static calls / closures
+		var writers []string
+		for _, sp := range f.c.specs.Order {
+			if sp.PkgPath != pkgPath {
+				continue
+			}
+			for _, w := range specGhostWrites(sp) {
+				if w == g {
+					writers = append(writers, sp.Key)
+					break
+				}
 			}
 		}
+		if !reachesAny(callee, writers, map[*ssa.Function]bool{}, 0) {
+			kept[g] = true
+		}
 	}
-	if reachesAny(callee, writers, map[*ssa.Function]bool{}, 0) {
-		f.c.warn = append(f.c.warn, "SPEC-ERROR async-boundary "+funcKey(callee)+": a function under contract that updates a ghost variable of "+root.spec.Key+" is statically reachable from it")
-		f.c.specErrors++
+	if len(kept) == 0 {
 		return nil
 	}
+	mentioned = kept
 	f.c.note("ASSUMED async boundary: " + funcKey(callee) + " (called from " + funcKey(root.fn) + ") does not synchronously re-enter, through dynamic dispatch, a function under contract that updates the caller's ghost state; static reachability checked on the SSA")
 	return mentioned
 }
